@@ -21,6 +21,28 @@ use ureq_proto::{BodyMode, Error};
 
 type R = Result<(u64, u64), String>;
 
+/// Several twins serve more than one property; their failure messages start with the property they belong to
+/// ("[C13] ..").  A failure that belongs to a property this run was not asked about (VERIF_TWIN) must neither be blamed
+/// on the requested one nor stop the twin before it reaches the requested property's own checks: it is skipped.
+fn tag_applies(msg: &str) -> bool {
+    let sel = std::env::var("VERIF_TWIN").unwrap_or_else(|_| "ALL".into());
+    if sel == "ALL" || sel.split(',').any(|p| p == "C01") {
+        return true;
+    }
+    match (msg.find('['), msg.find(']')) {
+        (Some(0), Some(e)) => msg[1..e].split(',').any(|t| sel.split(',').any(|p| p == t)),
+        _ => true,
+    }
+}
+macro_rules! tagged_fail {
+    ($($arg:tt)*) => {{
+        let m = format!($($arg)*);
+        if tag_applies(&m) {
+            return Err(m);
+        }
+    }};
+}
+
 fn big() -> bool {
     std::env::var("VERIF_TIER").map(|v| v == "thorough").unwrap_or(false)
 }
@@ -270,11 +292,11 @@ fn twin_c18_c19() -> R {
         let mut flow = to_send_body(req)?;
         let m = flow.calculate_max_input(o);
         if m > o {
-            return Err(format!("[C18] max_input({}) = {} > n", o, m));
+            tagged_fail!("[C18] max_input({}) = {} > n", o, m);
         }
         // monotone along the ascending sweep 0..=top (the extra sizes appended afterwards are not in order)
         if idx <= top && m < prev_max {
-            return Err(format!("[C18] max_input not monotone at {}", o));
+            tagged_fail!("[C18] max_input not monotone at {}", o);
         }
         if idx <= top {
             prev_max = m;
@@ -286,7 +308,7 @@ fn twin_c18_c19() -> R {
             let mut out = vec![0u8; o];
             let (ci, _co) = flow.write(&input, &mut out).map_err(|e| format!("{:?}", e))?;
             if ci != m {
-                return Err(format!("[C18] max_input({}) = {} but a write consumed only {}", o, m, ci));
+                tagged_fail!("[C18] max_input({}) = {} but a write consumed only {}", o, m, ci);
             }
         }
         // progress + monotone in the offered input (fresh flows, same buffer)
@@ -300,10 +322,10 @@ fn twin_c18_c19() -> R {
                 let mut out = vec![0u8; o];
                 let (ci, _) = f2.write(&input, &mut out).map_err(|e| format!("{:?}", e))?;
                 if ci == 0 {
-                    return Err(format!("[C19] no progress: input {} output {}", il, o));
+                    tagged_fail!("[C19] no progress: input {} output {}", il, o);
                 }
                 if ci < il.min(m) {
-                    return Err(format!("[C18,C19] input {} output {}: consumed {} < min(input, max_input={})", il, o, ci, m));
+                    tagged_fail!("[C18,C19] input {} output {}: consumed {} < min(input, max_input={})", il, o, ci, m);
                 }
                 if il >= last_in(&[1usize, 2, 15, 16, 17, 255, 256, 257], il) && ci < last.min(il) {
                     // monotone along the increasing prefix of the list
@@ -319,7 +341,7 @@ fn twin_c18_c19() -> R {
                 let mut out = vec![0u8; o];
                 let (ci, _) = f2.write(&vec![b'm'; il], &mut out).map_err(|e| format!("{:?}", e))?;
                 if ci < prev {
-                    return Err(format!("[C19] offering more input reduced progress: output {} input {} consumed {} < {}", o, il, ci, prev));
+                    tagged_fail!("[C19] offering more input reduced progress: output {} input {} consumed {} < {}", o, il, ci, prev);
                 }
                 prev = ci;
             }
@@ -656,7 +678,7 @@ fn twin_c05_c20() -> R {
             match k {
                 1 => {
                     if try_parse_response::<0>(&full).err() != Some(Error::HttpParseTooManyHeaders) {
-                        return Err("[C20] limit 0 not enforced".into());
+                        tagged_fail!("[C20] limit 0 not enforced");
                     }
                 }
                 _ => {}
@@ -676,7 +698,7 @@ fn twin_c05_c20() -> R {
             if cut <= status_line_len {
                 match try_parse_response::<0>(pre) {
                     Ok(None) => {}
-                    other => return Err(format!("[C20,C11] limit 0: prefix {} of {:?}: {:?}", cut, String::from_utf8_lossy(&head), other.map(|o| o.map(|x| x.0)))),
+                    other => { tagged_fail!("[C20,C11] limit 0: prefix {} of {:?}: {:?}", cut, String::from_utf8_lossy(&head), other.map(|o| o.map(|x| x.0))); }
                 }
             }
             match try_parse_partial_response::<8>(pre) {
@@ -686,18 +708,18 @@ fn twin_c05_c20() -> R {
                     for (name, val) in r.headers().iter() {
                         let line_end = find_field_end(&head, name.as_str(), val.as_bytes());
                         if line_end.map(|e| e > cut).unwrap_or(true) {
-                            return Err(format!("[C20] partial parser reported a field not completely received: {:?} at cut {}", name, cut));
+                            tagged_fail!("[C20] partial parser reported a field not completely received: {:?} at cut {}", name, cut);
                         }
                     }
                 }
-                Err(e) => return Err(format!("[C20] partial parser failed on prefix {} of {:?}: {:?}", cut, String::from_utf8_lossy(&head), e)),
+                Err(e) => { tagged_fail!("[C20] partial parser failed on prefix {} of {:?}: {:?}", cut, String::from_utf8_lossy(&head), e); }
             }
             let mut flow = to_recv_response(get_req())?;
             let location_complete = fields.iter().any(|(k, v)| k == "location" && find_field_end(&head, k, v).map(|e| e <= cut).unwrap_or(false));
             match flow.try_response(pre) {
                 Ok((0, None)) => {}
                 Ok((_, Some(_))) if is_redirect && location_complete => { /* known finding KF2, owned by C05's listed exception */ }
-                other => return Err(format!("[C05] flow: prefix {} of {:?} -> {:?}", cut, String::from_utf8_lossy(&head), other.map(|o| (o.0, o.1.is_some())))),
+                other => { tagged_fail!("[C05] flow: prefix {} of {:?} -> {:?}", cut, String::from_utf8_lossy(&head), other.map(|o| (o.0, o.1.is_some()))); }
             }
         }
         // exactly H in the buffer (nothing after it) is a complete head too
@@ -705,14 +727,14 @@ fn twin_c05_c20() -> R {
         match flow.try_response(&head) {
             Ok((used, Some(r))) if used == head.len() && r.status().as_u16() == st => {}
             Err(Error::BadContentLengthHeader) => {}
-            other => return Err(format!("[C05] flow: head alone {:?} -> {:?}", String::from_utf8_lossy(&head), other.map(|o| (o.0, o.1.is_some())))),
+            other => { tagged_fail!("[C05] flow: head alone {:?} -> {:?}", String::from_utf8_lossy(&head), other.map(|o| (o.0, o.1.is_some()))); }
         }
         // the flow consumes exactly |H|
         let mut flow = to_recv_response(get_req())?;
         match flow.try_response(&full) {
             Ok((used, Some(r))) if used == head.len() && r.status().as_u16() == st => {}
             Err(Error::BadContentLengthHeader) => {}
-            other => return Err(format!("[C05] flow: complete head {:?} -> {:?}", String::from_utf8_lossy(&head), other.map(|o| (o.0, o.1.is_some())))),
+            other => { tagged_fail!("[C05] flow: complete head {:?} -> {:?}", String::from_utf8_lossy(&head), other.map(|o| (o.0, o.1.is_some()))); }
         }
     }
     // 128 / 129 fields
@@ -728,10 +750,10 @@ fn twin_c05_c20() -> R {
         if k == 128 {
             match r {
                 Ok((u, Some(resp))) if u == h.len() && resp.headers().len() == 128 => {}
-                other => return Err(format!("[C05] 128 fields: {:?}", other.map(|o| o.0))),
+                other => { tagged_fail!("[C05] 128 fields: {:?}", other.map(|o| o.0)); }
             }
         } else if r.is_ok() {
-            return Err("[C05] 129 fields accepted".into());
+            tagged_fail!("[C05] 129 fields accepted");
         }
     }
     // request parser
@@ -746,16 +768,16 @@ fn twin_c05_c20() -> R {
         n += 1;
         match try_parse_request::<4>(&full) {
             Ok(Some((used, r))) if used == h.len() && r.method().as_str() == m && r.headers().len() == nf => {}
-            other => return Err(format!("[C20] request parser: {:?}", other.map(|o| o.map(|x| x.0)))),
+            other => { tagged_fail!("[C20] request parser: {:?}", other.map(|o| o.map(|x| x.0))); }
         }
         if nf > 0 && try_parse_request::<1>(&full).is_ok() && nf > 1 {
-            return Err("[C20] request limit not enforced".into());
+            tagged_fail!("[C20] request limit not enforced");
         }
         for cut in 0..h.len() {
             n += 1;
             match try_parse_request::<4>(&h[..cut]) {
                 Ok(None) => {}
-                other => return Err(format!("[C20] request prefix {}: {:?}", cut, other.map(|o| o.map(|x| x.0)))),
+                other => { tagged_fail!("[C20] request prefix {}: {:?}", cut, other.map(|o| o.map(|x| x.0))); }
             }
         }
     }
@@ -1135,24 +1157,24 @@ fn twin_c10_c11_c09() -> R {
                                     let mut rr = match flow.proceed() {
                                         Ok(Some(SendRequestResult::Await100(mut a))) => {
                                             if !expect {
-                                                return Err("[C09,C11] Await100 without Expect".into());
+                                                tagged_fail!("[C09,C11] Await100 without Expect");
                                             }
                                             // undecided prefixes consume nothing
                                             for cut in [0usize, 5, 12, 17] {
                                                 if a.try_read_100(&b"HTTP/1.1 100 Continue\r\n\r\n"[..cut]) != Ok(0) || !a.can_keep_await_100() {
-                                                    return Err(format!("[C11] try_read_100 decided on a {}-byte prefix", cut));
+                                                    tagged_fail!("[C11] try_read_100 decided on a {}-byte prefix", cut);
                                                 }
                                             }
                                             match handshake {
                                                 0 => {
                                                     let i = b"HTTP/1.1 100 Continue\r\n\r\nHTTP/1.1 200";
                                                     if a.try_read_100(i) != Ok(25) || a.can_keep_await_100() {
-                                                        return Err("[C11] bare 100 not consumed exactly".into());
+                                                        tagged_fail!("[C11] bare 100 not consumed exactly");
                                                     }
                                                 }
                                                 1 | 2 | 4 => {
                                                     if a.try_read_100(refusal.as_bytes()) != Ok(0) || a.can_keep_await_100() {
-                                                        return Err("[C11] refusal must consume nothing and stop waiting".into());
+                                                        tagged_fail!("[C11] refusal must consume nothing and stop waiting");
                                                     }
                                                     refused = true;
                                                 }
@@ -1161,7 +1183,7 @@ fn twin_c10_c11_c09() -> R {
                                             match a.proceed() {
                                                 Ok(Await100Result::SendBody(mut sb)) => {
                                                     if refused {
-                                                        return Err("[C11] body requested after refusal".into());
+                                                        tagged_fail!("[C11] body requested after refusal");
                                                     }
                                                     sb.write(b"hi", &mut out).map_err(|e| format!("{:?}", e))?;
                                                     sb.write(&[], &mut out).map_err(|e| format!("{:?}", e))?;
@@ -1169,7 +1191,7 @@ fn twin_c10_c11_c09() -> R {
                                                 }
                                                 Ok(Await100Result::RecvResponse(r)) => {
                                                     if !refused {
-                                                        return Err("[C11] body skipped without refusal".into());
+                                                        tagged_fail!("[C11] body skipped without refusal");
                                                     }
                                                     r
                                                 }
@@ -1178,11 +1200,11 @@ fn twin_c10_c11_c09() -> R {
                                         }
                                         Ok(Some(SendRequestResult::SendBody(mut sb))) => {
                                             if expect {
-                                                return Err("[C09,C11] SendBody with Expect".into());
+                                                tagged_fail!("[C09,C11] SendBody with Expect");
                                             }
                                             sb.write(b"hi", &mut out).map_err(|e| format!("{:?}", e))?;
                                             if sb.can_proceed() {
-                                                return Err("[C09] can proceed before finish".into());
+                                                tagged_fail!("[C09] can proceed before finish");
                                             }
                                             sb.write(&[], &mut out).map_err(|e| format!("{:?}", e))?;
                                             sb.proceed().ok_or("SendBody cannot proceed")?
@@ -1211,7 +1233,7 @@ fn twin_c10_c11_c09() -> R {
                                         let l = b"HTTP/1.1 100 Continue\r\n\r\n";
                                         match rr.try_response(l) {
                                             Ok((25, None)) => {}
-                                            other => return Err(format!("[C11] late 100 not skipped: {:?}", other.map(|o| (o.0, o.1.is_some())))),
+                                            other => { tagged_fail!("[C11] late 100 not skipped: {:?}", other.map(|o| (o.0, o.1.is_some()))); }
                                         }
                                     }
                                     if late_100 && expect && (gave_up || handshake == 0) {
@@ -1219,11 +1241,11 @@ fn twin_c10_c11_c09() -> R {
                                         let l = b"HTTP/1.1 100 Continue\r\n\r\n";
                                         match rr.try_response(l) {
                                             Ok((25, Some(r))) if r.status().as_u16() == 100 => {}
-                                            other => return Err(format!("[C11] a second / unawaited 100 was not surfaced (handshake {}): {:?}", handshake, other.map(|o| (o.0, o.1.is_some())))),
+                                            other => { tagged_fail!("[C11] a second / unawaited 100 was not surfaced (handshake {}): {:?}", handshake, other.map(|o| (o.0, o.1.is_some()))); }
                                         }
                                     }
                                     if rr.can_proceed() {
-                                        return Err("[C09] RecvResponse can proceed before a response".into());
+                                        tagged_fail!("[C09] RecvResponse can proceed before a response");
                                     }
                                     match rr.try_response(head.as_bytes()) {
                                         Ok((u, Some(_))) if u == head.len() => {}
@@ -1244,7 +1266,7 @@ fn twin_c10_c11_c09() -> R {
                                                 rb.read(&body[7..], &mut o).map_err(|e| format!("{:?}", e))?;
                                             }
                                             if !rb.can_proceed() {
-                                                return Err(format!("[C09] body not complete ({} {})", framing, resp_v));
+                                                tagged_fail!("[C09] body not complete ({} {})", framing, resp_v);
                                             }
                                             match rb.proceed() {
                                                 Some(RecvBodyResult::Cleanup(c)) => c,
@@ -1256,10 +1278,10 @@ fn twin_c10_c11_c09() -> R {
                                     };
                                     let want = req_v == Version::HTTP_10 || req_close == Some("close") || (!refused && resp_close == Some("close")) || refused || close_delim;
                                     if cleanup.must_close_connection() != want || cleanup.close_reason().is_some() != want {
-                                        return Err(format!(
+                                        tagged_fail!(
                                             "[C10] verdict {} want {} (req {:?} close {:?} expect {} handshake {} resp {} framing {} resp_close {:?}) reason {:?}",
                                             cleanup.must_close_connection(), want, req_v, req_close, expect, handshake, resp_v, framing, resp_close, cleanup.close_reason()
-                                        ));
+                                        );
                                     }
                                 }
                             }
@@ -1290,12 +1312,12 @@ fn twin_c10_c11_c09() -> R {
                 let got = match rr.proceed() {
                     Some(RecvResponseResult::RecvBody(mut rb)) => {
                         if !has_body {
-                            return Err(format!("[C09] RecvBody for a response without body: {:?}", head));
+                            tagged_fail!("[C09] RecvBody for a response without body: {:?}", head);
                         }
                         let mut o = [0u8; 8];
                         rb.read(b"ok", &mut o).map_err(|e| format!("{:?}", e))?;
                         if !rb.can_proceed() {
-                            return Err("[C09] sized body not complete".into());
+                            tagged_fail!("[C09] sized body not complete");
                         }
                         match rb.proceed() {
                             Some(RecvBodyResult::Redirect(_)) => true,
@@ -1305,20 +1327,20 @@ fn twin_c10_c11_c09() -> R {
                     }
                     Some(RecvResponseResult::Redirect(_)) => {
                         if has_body {
-                            return Err(format!("[C09] body skipped: {:?}", head));
+                            tagged_fail!("[C09] body skipped: {:?}", head);
                         }
                         true
                     }
                     Some(RecvResponseResult::Cleanup(_)) => {
                         if has_body {
-                            return Err(format!("[C09] body skipped: {:?}", head));
+                            tagged_fail!("[C09] body skipped: {:?}", head);
                         }
                         false
                     }
                     None => return Err("[C09] RecvResponse::proceed None after a response".into()),
                 };
                 if got != want_redirect {
-                    return Err(format!("[C09] successor after {:?}: redirect={} want {}", head, got, want_redirect));
+                    tagged_fail!("[C09] successor after {:?}: redirect={} want {}", head, got, want_redirect);
                 }
             }
         }
@@ -1420,6 +1442,47 @@ fn twin_c12() -> R {
             p += 1;
         }
     }
+    // grammar-aware oversize inputs (the property's quantifier: "oversize numbers, stray CR/LF, >128 fields"): field names
+    // and values longer than any internal limit, a status line without end, many empty fields - offered to every head-reading call
+    let long_name = vec![b'a'; 70000];
+    let mut heads: Vec<Vec<u8>> = vec![];
+    for name_len in [65535usize, 65536, 70000] {
+        let mut h = b"HTTP/1.1 200 OK\r\n".to_vec();
+        h.extend_from_slice(&long_name[..name_len]);
+        h.extend_from_slice(b": v\r\n\r\n");
+        heads.push(h);
+    }
+    let mut h = b"HTTP/1.1 200 OK\r\nx: ".to_vec();
+    h.extend_from_slice(&vec![b'v'; 100000]);
+    h.extend_from_slice(b"\r\n\r\n");
+    heads.push(h);
+    let mut h = b"HTTP/1.1 200 ".to_vec();
+    h.extend_from_slice(&vec![b'r'; 100000]);
+    heads.push(h);
+    for h in &heads {
+        for cut in [h.len(), h.len() - 1, h.len() - 4, 66000.min(h.len())] {
+            n += 1;
+            let pre = &h[..cut];
+            let r = std::panic::catch_unwind(|| {
+                let mut f = to_recv_response(get_req()).unwrap();
+                let _ = f.try_response(pre);
+                let _ = f.can_proceed();
+                let _ = try_parse_response::<4>(pre);
+                let _ = try_parse_partial_response::<4>(pre);
+                let req = Request::put("http://a.test/x").header("expect", "100-continue").body(()).unwrap();
+                let mut fl = Flow::new(req).unwrap().proceed();
+                let mut out = vec![0u8; 256];
+                fl.write(&mut out).unwrap();
+                if let Ok(Some(SendRequestResult::Await100(mut a))) = fl.proceed() {
+                    let _ = a.try_read_100(pre);
+                    let _ = a.proceed();
+                }
+            });
+            if r.is_err() {
+                return Err(format!("panic on an oversize head ({} bytes, cut {}, starts {:?})", h.len(), cut, String::from_utf8_lossy(&h[..24])));
+            }
+        }
+    }
     Ok((n, n))
 }
 
@@ -1449,10 +1512,10 @@ fn twin_c13_c14_c15() -> R {
             match rr.proceed() {
                 Some(RecvResponseResult::Redirect(mut red)) => {
                     if st == 304 {
-                        return Err("[C15] 304 entered the redirect state".into());
+                        tagged_fail!("[C15] 304 entered the redirect state");
                     }
                     if red.status().as_u16() != st {
-                        return Err("[C15] redirect reports a different status".into());
+                        tagged_fail!("[C15] redirect reports a different status");
                     }
                     let want: Option<Method> = if st == 307 || st == 308 {
                         if needs_body || *m == Method::DELETE { None } else { Some(m.clone()) }
@@ -1466,27 +1529,27 @@ fn twin_c13_c14_c15() -> R {
                         (None, None) => {}
                         (Some(f), Some(w)) => {
                             if *f.method() != w {
-                                return Err(format!("[C15] {} {:?}: redirected with {:?}, want {:?}", st, m, f.method(), w));
+                                tagged_fail!("[C15] {} {:?}: redirected with {:?}, want {:?}", st, m, f.method(), w);
                             }
                             if f.uri().to_string() != "http://b.test/z?q" {
-                                return Err(format!("[C14] target {:?}", f.uri().to_string()));
+                                tagged_fail!("[C14] target {:?}", f.uri().to_string());
                             }
                             let mut sr = f.proceed();
                             let mut o = vec![0u8; 1024];
                             let k = sr.write(&mut o).map_err(|e| format!("{:?}", e))?;
                             let h = String::from_utf8_lossy(&o[..k]).to_lowercase();
                             if h.contains("authorization") {
-                                return Err("[C13] authorization leaked to another host".into());
+                                tagged_fail!("[C13] authorization leaked to another host");
                             }
                             if !h.contains("host: b.test") || !h.starts_with(&format!("{} /z?q http/1.1\r\n", w.as_str().to_lowercase())) {
-                                return Err(format!("[C14] request line / host wrong: {:?}", h));
+                                tagged_fail!("[C14] request line / host wrong: {:?}", h);
                             }
                         }
-                        (a, b) => return Err(format!("[C15] {} {:?}: followed={} want {:?}", st, m, a.is_some(), b)),
+                        (a, b) => { tagged_fail!("[C15] {} {:?}: followed={} want {:?}", st, m, a.is_some(), b); }
                     }
                 }
                 Some(RecvResponseResult::Cleanup(_)) if st == 304 => {}
-                _ => return Err(format!("[C15] status {}: wrong state", st)),
+                _ => { tagged_fail!("[C15] status {}: wrong state", st); }
             }
         }
     }
@@ -1516,7 +1579,7 @@ fn twin_c13_c14_c15() -> R {
             };
             flow = red.as_new_flow(policy).map_err(|e| format!("{} -> {:?}", loc, e))?.ok_or("not followed")?;
             if flow.uri().to_string() != *want_uri {
-                return Err(format!("[C14] Location {:?} resolved to {:?}, want {:?}", loc, flow.uri().to_string(), want_uri));
+                tagged_fail!("[C14] Location {:?} resolved to {:?}, want {:?}", loc, flow.uri().to_string(), want_uri);
             }
             let mut probe = clone_chain(policy, &hops, loc)?;
             let mut o = vec![0u8; 2048];
@@ -1525,10 +1588,10 @@ fn twin_c13_c14_c15() -> R {
             let has_auth = h.contains("authorization: secret");
             let may_auth = policy == RedirectAuthHeaders::SameHost && *keep;
             if has_auth && !may_auth {
-                return Err(format!("[C13] hop {:?} policy {:?}: authorization present although it must not be", loc, policy));
+                tagged_fail!("[C13] hop {:?} policy {:?}: authorization present although it must not be", loc, policy);
             }
             if h.contains("cookie:") || h.contains("content-length:") {
-                return Err(format!("[C13] hop {:?}: stale cookie / content-length sent: {:?}", loc, h));
+                tagged_fail!("[C13] hop {:?}: stale cookie / content-length sent: {:?}", loc, h);
             }
         }
     }
@@ -1553,7 +1616,7 @@ fn twin_c13_c14_c15() -> R {
         let k = sr.write(&mut o).map_err(|e| format!("{:?}", e))?;
         let h = String::from_utf8_lossy(&o[..k]).to_lowercase();
         if target.starts_with("http://") && h.contains("authorization") {
-            return Err(format!("[C13] https original, hops {:?}: credential sent in clear text to {}", hops2, target));
+            tagged_fail!("[C13] https original, hops {:?}: credential sent in clear text to {}", hops2, target);
         }
     }
     // errors, never panics
@@ -1569,7 +1632,21 @@ fn twin_c13_c14_c15() -> R {
             match r {
                 Ok(Ok(true)) if ok => {}
                 Ok(Err(_)) if !ok => {}
-                other => return Err(format!("[C14] Location {:?}: {:?}", String::from_utf8_lossy(loc), other.map(|x| x.is_ok()))),
+                other => { tagged_fail!("[C14] Location {:?}: {:?}", String::from_utf8_lossy(loc), other.map(|x| x.is_ok())); }
+            }
+        }
+    }
+    // a request whose own uri is relative (origin-form "/x" + Host header): a relative Location has no base: an error, never a panic
+    for loc in ["/y", "y?z", "http://b.test/abs"] {
+        n += 1;
+        let req = Request::get("/x").header("host", "a.test").body(()).unwrap();
+        let mut rr = to_recv_response(req)?;
+        let head = format!("HTTP/1.1 302 Found\r\nLocation: {}\r\nContent-Length: 0\r\n\r\n", loc);
+        rr.try_response(head.as_bytes()).map_err(|e| format!("{:?}", e))?;
+        if let Some(RecvResponseResult::Redirect(mut red)) = rr.proceed() {
+            let r = std::panic::catch_unwind(std::panic::AssertUnwindSafe(|| red.as_new_flow(RedirectAuthHeaders::Never).map(|o| o.is_some())));
+            if r.is_err() {
+                tagged_fail!("[C14] relative request uri + Location {:?}: panic", loc);
             }
         }
     }
@@ -1578,7 +1655,7 @@ fn twin_c13_c14_c15() -> R {
     rr.try_response(b"HTTP/1.1 302 Found\r\nContent-Length: 0\r\n\r\n").map_err(|e| format!("{:?}", e))?;
     if let Some(RecvResponseResult::Redirect(mut red)) = rr.proceed() {
         if red.as_new_flow(RedirectAuthHeaders::Never).is_ok() {
-            return Err("[C14] missing Location not reported".into());
+            tagged_fail!("[C14] missing Location not reported");
         }
     }
     Ok((n, n))
